@@ -1,4 +1,5 @@
 import GixModel.Lemmas.C11
+import GixModel.Lemmas.C56StoredD
 /-
 `EarlyOutput` for the stored-block codec the Lean driver runs (Model/C56.lean, `Stored`), for streams whose
 stored blocks are all non-empty (what `Stored.compress` writes).
@@ -69,24 +70,6 @@ theorem run_mono : ∀ (fuel : Nat) (s : DState) (inp : Bytes) (room c : Nat) (a
             · simp at h
         · simp only [Option.some.injEq, Prod.mk.injEq] at h; rw [← h.2.2]; exact Nat.le_refl _
 
-theorem run_data_step (f : Nat) (rem : Nat) (fin : Bool) (ad : Nat × Nat) (fr : Bool) (hrem : rem ≠ 0)
-    (inp : Bytes) (room c : Nat) (acc : Bytes) :
-    run (f + 1) { phase := .data rem fin, ad := ad, fresh := fr } inp room c acc =
-    (if min rem (min inp.length room) = 0 then some ({ phase := .data rem fin, ad := ad, fresh := fr }, c, acc)
-     else run f { phase := .data (rem - min rem (min inp.length room)) fin, ad := adler ad (inp.take (min rem (min inp.length room))) }
-       (inp.drop (min rem (min inp.length room))) (room - min rem (min inp.length room))
-       (c + min rem (min inp.length room)) (acc ++ inp.take (min rem (min inp.length room)))) := by
-  simp [run, hrem]
-
-theorem run_data_zero (f : Nat) (ad : Nat × Nat) (fr : Bool) (inp : Bytes) (room c : Nat) (acc : Bytes) :
-    run (f + 1) { phase := .data 0 false, ad := ad, fresh := fr } inp room c acc =
-    run f { phase := .blockHdr [], ad := ad, fresh := fr } inp room c acc := by
-  simp [run]
-
-def encBlocks (blocks : List Bytes) : Bytes := blocks.flatMap fun b => blockHeader false b.length ++ b
-
-def ValidBlocks (blocks : List Bytes) : Prop := ∀ b ∈ blocks, 1 ≤ b.length ∧ b.length ≤ 65535
-
 theorem prefix_split {p a x : Bytes} (h : p <+: a ++ x) (hl : a.length ≤ p.length) :
     ∃ p', p = a ++ p' ∧ p' <+: x := by
   obtain ⟨t, ht⟩ := h
@@ -100,8 +83,6 @@ theorem prefix_split {p a x : Bytes} (h : p <+: a ++ x) (hl : a.length ≤ p.len
   have h2 : (p ++ t).drop a.length = x := by rw [ht]; exact List.drop_left' rfl
   rw [List.drop_append_of_le_length hl] at h2
   exact h2
-
-theorem blockHeader_length (fin : Bool) (n : Nat) : (blockHeader fin n).length = 5 := rfl
 
 /-- from a block boundary on: what a call writes is at least a sixth of what it is given (every block costs
 five header bytes and holds at least one content byte), unless the room or the content runs out first -/
@@ -172,22 +153,6 @@ theorem run_zlib_header (f : Nat) (ad : Nat × Nat) (fr : Bool) (rest : Bytes) (
   rw [if_pos h1, run]
   dsimp only
   rw [if_pos h2]
-
-theorem encBlocks_length_le (blocks : List Bytes) (hv : ValidBlocks blocks) :
-    (encBlocks blocks).length ≤ 6 * blocks.flatten.length := by
-  induction blocks with
-  | nil => simp [encBlocks]
-  | cons b bs ih =>
-    have hb := (hv b (by simp)).1
-    have := ih (fun x hx => hv x (by simp [hx]))
-    simp only [encBlocks, List.flatMap_cons, List.length_append, blockHeader_length, List.flatten_cons] at this ⊢
-    omega
-
-/-- a zlib stream made of non-empty stored blocks, a final empty stored block and the Adler-32 of the content:
-what `Stored.compress` writes -/
-def IsStoredNE (z d : Bytes) : Prop :=
-  ∃ blocks, ValidBlocks blocks ∧ blocks.flatten = d ∧
-    z = [0x78, 0x01] ++ (encBlocks blocks ++ (blockHeader true 0 ++ adlerBytes (adler (1, 0) d)))
 
 /-- `EarlyOutput` holds for the stored-block decompressor of the driver on all such streams: the first 192
 bytes hold at most 2 + 5·k header bytes for k ≥ 31 content bytes -/
